@@ -374,7 +374,7 @@ func C06(c *core.Ctx) {
 			trace := filepath.Join(c.Scratch, fmt.Sprintf("c06-%s-%d.ndjson", j.mode, j.shard))
 			wr := c.RunWorker(20*time.Minute, "c06", trace, j.mode, c.Tier, strconv.FormatInt(c.Seed, 10), strconv.Itoa(j.shard), strconv.Itoa(j.nshard))
 
-			if wr.Panic != "" {
+			if wr.Panic != "" && wr.Site != "unknown" {
 				f, _ := os.OpenFile(trace, os.O_APPEND|os.O_WRONLY|os.O_CREATE, 0o644)
 				fmt.Fprintf(f, "{\"op\":\"died\",\"site\":%q,\"panic\":%q}\n", wr.Site, wr.Panic)
 				f.Close()
